@@ -34,7 +34,7 @@ def main():
                   "source_commits": [], "add_only": True},
         "engines": [{"name": "coq-model+correspondence", "path": "coq/, ocaml/driver.ml, harness/",
                      "serves_properties": [c["property_id"] for c in checks],
-                     "kind_free_text": "Coq 8.16 development (Model/, Proofs/, Props/) + tables regenerated from /repo (harness/gen_tables.py) + extracted OCaml model run against the Python implementation"}],
+                     "kind_free_text": "Coq 8.16 development (Model/, Proofs/, Props/) + tables and decisions regenerated from /repo (harness/gen_tables.py, gen_logic.py, gen_antlr.py, gen_antlr_lexer.py) + extracted OCaml model run against the Python implementation"}],
         "checks": checks,
         "not_applicable": na,
         "notes": "Every check regenerates coq/gen/*.v from /repo, runs make (full .vo), re-checks Props/<id>.v with Print Assumptions, runs the correspondence components and the falsifier. See DESIGN.md.",
